@@ -3,5 +3,6 @@ CONSTANTS
   MaxTok = 1
   Mode = "comment"
   Depth = 0
+  DeepAll = FALSE
 INVARIANT GenInv
 CHECK_DEADLOCK FALSE
